@@ -10,6 +10,22 @@ theorem adv_over {hdr P g g1} (hi : RxGI hdr P g) (ho : g.over = true) (ha : g.A
   obtain ⟨hi1, _⟩ := hi.adv ha
   exact ⟨hi1, hs, ho1, hf, htk, hw1.overPending ho1⟩
 
+/-- what holds when a transfer has failed while the rest of a complete packet was being read -/
+structure RxFail (g g' : RxG) : Prop where
+  wf : g'.Wf
+  live : g'.live
+  over : g'.over = true
+  same : g.Same g'
+  faulted : g'.faulted = true
+
+theorem advF_over {hdr P g g'} (hi : RxGI hdr P g) (ho : g.over = true) (ha : g.AdvF g') : RxFail g g' := by
+  obtain ⟨g1, ha1, rfl⟩ := ha
+  obtain ⟨hi1, hs, ho1, _, _, _⟩ := adv_over hi ho ha1
+  exact ⟨hi1.faulted.wf, hi1.faulted.live, ho1, ⟨hs.cfg1, hs.cfg2, hs.plen, hs.crcGood, hs.cbs, hs.ended, hs.poison⟩, rfl⟩
+
+theorem RxFail.trans {a b c : RxG} (h1 : a.Same b) (h2 : RxFail b c) : RxFail a c :=
+  ⟨h2.wf, h2.live, h2.over, h1.trans h2.same, h2.faulted⟩
+
 /-- what `read_payload_batch(false)` leaves behind: the whole payload in the buffer -/
 structure RxDone (P : List UInt8) (h h' : Handle) : Prop where
   exp : h'.expected.toNat = P.length
@@ -22,7 +38,8 @@ structure RxDone (P : List UInt8) (h h' : Handle) : Prop where
 theorem drain_spec (hdr P : List UInt8) : ∀ (fuel : Nat) (h : Handle) (g : RxG), RxGI hdr P g → g.over = true →
     PhaseB hdr P h g → h.received.toNat < P.length → P.length ≤ h.packet.length → P.length < 65536 →
     P.length - h.received.toNat ≤ fuel →
-    DM.gwp rxE (drainLoop fuel) h g (fun g' r h' => r = .ok () ∧ RxDone P h h' ∧ g'.live ∧ g'.cbs = g.cbs ∧ g'.fifo = [] ∧ g'.pending = []) := by
+    DM.gwp rxE (drainLoop fuel) h g (fun g' r h' =>
+      (r = .ok () ∧ RxDone P h h' ∧ g'.live ∧ g.Same g' ∧ g'.fifo = [] ∧ g'.pending = []) ∨ (∃ c, r = .error c ∧ RxFail g g')) := by
   intro fuel
   induction fuel with
   | zero => intro h g _ _ _ hlt _ _ hf; omega
@@ -33,7 +50,8 @@ theorem drain_spec (hdr P : List UInt8) : ∀ (fuel : Nat) (h : Handle) (g : RxG
     dsimp only
     rw [if_neg (by omega), gwp_bind, gwp_rread]
     intro r1 g1 hr1
-    obtain ⟨v, g0, hr1v, ha0, hg1, hv⟩ := rx_rfifo hi.live r1 g1 hr1
+    rcases rx_rfifo hi.live r1 g1 hr1 with ⟨ce, hre, hae⟩ | ⟨v, g0, hr1v, ha0, hg1, hv⟩
+    case inl => subst hre; exact Or.inr ⟨ce, rfl, advF_over hi ho hae⟩
     subst hr1v hg1
     obtain ⟨hi0, hs0, ho0, hf0, htk0, hp0⟩ := adv_over hi ho ha0
     have hrest : g0.fifo = P.drop h.received.toNat := by
@@ -69,9 +87,10 @@ theorem drain_spec (hdr P : List UInt8) : ∀ (fuel : Nat) (h : Handle) (g : RxG
         rw [htk2, htk0, hB.taken, hsum, hrest, List.append_assoc, ← List.take_add]
     rw [gwp_bind, gwp_rread]
     intro r3 g3 hr3
-    obtain ⟨v3, g2', hr3v, ha2, hg3, hfl⟩ := rx_flags hi2.live r3 g3 hr3
-    subst hr3v hg3
     have ho2 : (g0.take 1).over = true := by rw [hover2]; exact ho0
+    rcases rx_flags hi2.live r3 g3 hr3 with ⟨ce, hre, hae⟩ | ⟨v3, g2', hr3v, ha2, hg3, hfl⟩
+    case inl => subst hre; exact Or.inr ⟨ce, rfl, RxFail.trans (hs0.trans hs2) (advF_over hi2 ho2 hae)⟩
+    subst hr3v hg3
     obtain ⟨hi2', hs2', ho2', hf2', htk2', hp2'⟩ := adv_over hi2 ho2 ha2
     dsimp only
     have hfifo3 : g2'.fifo = P.drop (h.received.toNat + 1) := by
@@ -92,34 +111,39 @@ theorem drain_spec (hdr P : List UInt8) : ∀ (fuel : Nat) (h : Handle) (g : RxG
         ⟨hB2.exp, hB2.rcv, hB2.stored, htk2'.trans hB2.taken⟩
       refine gwp_mono rxE _ _ _ _ _ ?_ (ih _ _ hi3 ho2' hB3 (by show (h.received + 1).toNat < _; rw [hsum]; exact hlt2)
         (by show P.length ≤ (h.packet.wr _ _).length; simp; exact hcap) h16 (by show P.length - (h.received + 1).toNat ≤ fuel; rw [hsum]; omega))
-      intro g' r h' ⟨hr, hd, hl, hcbs, hff, hpp⟩
-      refine ⟨hr, ⟨hd.exp, hd.data, hd.cb, hd.crc, by rw [hd.len]; simp⟩, hl, ?_, hff, hpp⟩
-      rw [hcbs]; show g2'.cbs = g.cbs
-      rw [hs2'.cbs, hs2.cbs, hs0.cbs]
+      have hs03 : g.Same { g2' with irq := v3 } :=
+        (hs0.trans hs2).trans ⟨hs2'.cfg1, hs2'.cfg2, hs2'.plen, hs2'.crcGood, hs2'.cbs, hs2'.ended, hs2'.poison⟩
+      intro g' r h' hpost
+      rcases hpost with ⟨hr, hd, hl, hsm, hff, hpp⟩ | ⟨ce, hre, hfl'⟩
+      · exact Or.inl ⟨hr, ⟨hd.exp, hd.data, hd.cb, hd.crc, by rw [hd.len]; simp⟩, hl, hs03.trans hsm, hff, hpp⟩
+      · exact Or.inr ⟨ce, hre, RxFail.trans hs03 hfl'⟩
     · rw [if_neg hz, gwp_pure]
       have he : g2'.fifo = [] := hemp.mp hz
       have hall : h.received.toNat + 1 = P.length := by
         rw [hfifo3] at he
         have := congrArg List.length he
         rw [List.length_drop] at this; simp at this; omega
-      refine ⟨rfl, ⟨hB2.exp, ?_, rfl, rfl, by simp⟩, hi2'.live, ?_, he, hp2'⟩
+      refine Or.inl ⟨rfl, ⟨hB2.exp, ?_, rfl, rfl, by simp⟩, hi2'.live, ?_, he, hp2'⟩
       · have := hB2.stored
         rw [show (h.received + 1).toNat = P.length by rw [hsum]; exact hall] at this
         rw [this]; simp
-      · show g2'.cbs = g.cbs
-        rw [hs2'.cbs, hs2.cbs, hs0.cbs]
+      · exact (hs0.trans hs2).trans ⟨hs2'.cfg1, hs2'.cfg2, hs2'.plen, hs2'.crcGood, hs2'.cbs, hs2'.ended, hs2'.poison⟩
 /-- `read_payload_batch(false)`: the payload-ready path takes everything that is left -/
 theorem batch_ready (fuel : Nat) (hfuel : 64 ≤ fuel) (hdr P : List UInt8) (h : Handle) (g : RxG)
     (hc : RxCfg hdr P h g) (hi : RxGI hdr P g) (hph : RxPhase hdr P h g) (ho : g.over = true) :
     DM.gwp rxE (fskOokReadPayloadBatch fuel false) h g (fun g' r h' =>
-      r = .ok () ∧ RxDone P h h' ∧ g'.live ∧ g'.cbs = g.cbs ∧ g'.fifo = [] ∧ g'.pending = []) := by
+      (r = .ok () ∧ RxDone P h h' ∧ g'.live ∧ g.Same g' ∧ g'.fifo = [] ∧ g'.pending = []) ∨ (∃ c, r = .error c ∧ RxFail g g')) := by
   unfold fskOokReadPayloadBatch
   rw [gwp_bind]
   have hpend : g.pending = [] := hi.wf.overPending ho
   refine gwp_mono rxE _ _ _ _ _ ?_ (header_any hdr P h g hc hi hph (fun htk => by
     have := congrArg List.length hi.stream
     rw [htk, hpend] at this; simp at this; omega))
-  intro g1 r1 h1 ⟨c, hr1, _, hB, hh1, hi1, _, hs1, _, _, hov1⟩
+  intro g1 r1 h1 hpost1
+  rcases hpost1 with ⟨c, hr1, _, hB, hh1, hi1, _, hs1, _, _, hov1⟩ | ⟨ce, hre, _, hfe, hfl⟩
+  case inr =>
+    subst hre
+    exact Or.inr ⟨ce, rfl, ⟨hfe.gi.wf, hfe.gi.live, hfe.over ho, hfe.same, hfl⟩⟩
   subst hr1
   have ho1 := hov1 ho
   have hp1 : g1.pending = [] := hi1.wf.overPending ho1
@@ -134,7 +158,7 @@ theorem batch_ready (fuel : Nat) (hfuel : 64 ≤ fuel) (hdr P : List UInt8) (h :
   by_cases heq : h1.expected = h1.received
   · rw [if_pos heq, gwp_pure]
     have hr : h1.received.toNat = P.length := by rw [← heq]; exact hB.exp
-    refine ⟨rfl, ⟨hB.exp, ?_, hfld.1, hfld.2.1, hfld.2.2⟩, hi1.live, hs1.cbs, ?_, hp1⟩
+    refine Or.inl ⟨rfl, ⟨hB.exp, ?_, hfld.1, hfld.2.1, hfld.2.2⟩, hi1.live, hs1, ?_, hp1⟩
     · have := hB.stored; rw [hr] at this; rw [this]; simp
     · rw [hrest, hr]; simp
   rw [if_neg heq, if_neg (by rw [hB.exp]; omega)]
@@ -149,7 +173,8 @@ theorem batch_ready (fuel : Nat) (hfuel : 64 ≤ fuel) (hdr P : List UInt8) (h :
     have hr0 : h1.received.toNat = 0 := by rw [hsc.1]; rfl
     rw [hB.exp, if_pos hcap1, gwp_bind, gwp_bread]
     intro r2 g2 hr2
-    obtain ⟨d, g1', hr2v, ha2, hg2, hdl, hdv⟩ := rx_bread hi1.live _ r2 g2 hr2
+    rcases rx_bread hi1.live _ r2 g2 hr2 with ⟨ce, hre, hae⟩ | ⟨d, g1', hr2v, ha2, hg2, hdl, hdv⟩
+    case inl => subst hre; exact Or.inr ⟨ce, rfl, RxFail.trans hs1 (advF_over hi1 ho1 hae)⟩
     subst hr2v hg2
     obtain ⟨hi1', hs1', ho1', hf1', htk1', hp1'⟩ := adv_over hi1 ho1 ha2
     have hfP : g1'.fifo = P := by rw [hf1', hrest, hr0]; rfl
@@ -164,18 +189,20 @@ theorem batch_ready (fuel : Nat) (hfuel : 64 ≤ fuel) (hdr P : List UInt8) (h :
     rw [if_pos (by omega), gwp_setH]
     dsimp only
     rw [gwp_modH]
-    refine ⟨rfl, ⟨hB.exp, ?_, hfld.1, hfld.2.1, by show (h1.packet.wrs 0 d).length = _; simp; exact hfld.2.2⟩,
+    refine Or.inl ⟨rfl, ⟨hB.exp, ?_, hfld.1, hfld.2.1, by show (h1.packet.wrs 0 d).length = _; simp; exact hfld.2.2⟩,
       hs2.live hi1'.live, ?_, ?_, ?_⟩
     · show (h1.packet.wrs 0 d).take d.length = d
       exact wrs_take _ _ hcap1
-    · rw [hs2.cbs, hs1'.cbs, hs1.cbs]
+    · exact (hs1.trans hs1').trans hs2
     · rw [hfifo2, hfP]; simp
     · rw [hpend2]; exact hp1'
   · rw [if_neg hsc]
     have hroom := hi1.wf.room
     have hfl : g1.fifo.length = P.length - h1.received.toNat := by rw [hrest, List.length_drop]
     refine gwp_mono rxE _ _ _ _ _ ?_ (drain_spec hdr P fuel h1 g1 hi1 ho1 hB hlt hcap1 hc.p16 (by omega))
-    intro g' r h' ⟨hr, hd, hl, hcbs, hff, hpp⟩
-    exact ⟨hr, ⟨hd.exp, hd.data, hd.cb.trans hfld.1, hd.crc.trans hfld.2.1, hd.len.trans hfld.2.2⟩, hl, hcbs.trans hs1.cbs, hff, hpp⟩
+    intro g' r h' hpost
+    rcases hpost with ⟨hr, hd, hl, hsm, hff, hpp⟩ | ⟨ce, hre, hfl'⟩
+    · exact Or.inl ⟨hr, ⟨hd.exp, hd.data, hd.cb.trans hfld.1, hd.crc.trans hfld.2.1, hd.len.trans hfld.2.2⟩, hl, hs1.trans hsm, hff, hpp⟩
+    · exact Or.inr ⟨ce, hre, RxFail.trans hs1 hfl'⟩
 
 end Sx
